@@ -111,19 +111,20 @@ def cxxio_pass(prop, tier, seed):
 
 
 WIN_HANDLE_CLASSES = {
-    "C10": ("win-std-handles", "win-start-failed", "win-process-handle",
+    "C10": ("win-std-handles", "win-start-failed", "win-process-handle", "win-handle-not-made-inheritable",
             # src/win.c --redirect: redirect.windows.c (which object, which direction)
             "win-parent-wrong-std-id", "win-parent-wrong-handle", "win-parent-missing-not-reported", "win-file-redirect-failed",
             "win-file-wrong-direction", "win-file-wrong-name", "win-file-disposition", "win-file-handle"),
     "C11": ("win-handle-list-not-in-force", "win-handle-list-missing", "win-handle-list-foreign", "win-foreign-handle-made-inheritable",
             "win-file-inheritable"),
-    "C05": ("win-closes-callers-handle", "win-thread-handle"),
+    "C05": ("win-closes-callers-handle", "win-thread-handle", "win-fault-leak", "win-start-leak"),
+    "C04": ("win-fault-wrong-error", "win-fault-handle-set", "win-fault-process-created"),
     # src/win.c --life: wait / terminate / kill / pid of process.windows.c at the Win32 boundary
     "C01": ("win-wait-status",),
     "C06": ("win-wait-target", "win-terminate-target", "win-kill-target", "win-pid"),
     "C07": ("win-terminate-target", "win-kill-target"),
 }
-WIN_MODE = {"C10": ["--handles", "--redirect"], "C11": ["--handles", "--redirect"], "C05": ["--handles"],
+WIN_MODE = {"C10": ["--handles", "--redirect"], "C11": ["--handles", "--redirect"], "C05": ["--handles"], "C04": ["--handles"],
             "C01": ["--life"], "C06": ["--life"], "C07": ["--life"]}
 
 
@@ -353,8 +354,8 @@ CHECKS = {
         "directory/dangling-interpreter/over-long/empty program, bad working directory, unusable redirect path, closed handle, "
         "RLIMIT_NOFILE swept 3..21); after the start: child census, reproc_pid, second start, helper's hello; "
         "non-trivial = a planned fault fired or a natural cause applied; distinct = (scenario, fault plan)",
-        {"faults_fired": 3000, "sites": 2000, "failed_starts": 1500, "restarts_checked": 1500, "natural_checked": 50},
-        config="asan-nd", assumptions=KERNEL_TRUST + ["faults are injected at the libc boundary (a call returns -1/errno without being performed; close is performed first; waitpid/ECHILD is performed first)"]),
+        {"faults_fired": 3000, "sites": 2000, "failed_starts": 1500, "restarts_checked": 1500, "natural_checked": 50, "win_handle_cases": 5000},
+        config="asan-nd", extra=win_handles_pass, assumptions=KERNEL_TRUST + ["Windows half only at the Win32 boundary (stubs): each Win32 call process_start depends on fails in turn; the error must come back, no process handle, no CreateProcessW after an earlier failure", "faults are injected at the libc boundary (a call returns -1/errno without being performed; close is performed first; waitpid/ECHILD is performed first)"]),
     "C05": scen_check(
         [("eng_fault", "asan-nd"), ("eng_ident", "asan"), ("eng_ledger", "asan")], "fault_enumeration",
         "same campaign as C04 with the ownership ledger as oracle: every pipe/open/dup the library makes is owned, every "
